@@ -225,6 +225,11 @@ Definition msg_compat (d r : msgdesc) : bool :=
   && forallb (fun f => match lookup_name r (fd_name f) with Some g => fd_tag f =? fd_tag g | None => true end) d.
 Definition schema_compat (S R : schema) : bool :=
   forallb (fun nd => match lookup_msg R (fst nd) with Some r => msg_compat (snd nd) r | None => true end) S.
+(* every field of R's description of a message is still decoded by S (same tag present): nothing R describes is lost *)
+Definition msg_covers (d r : msgdesc) : bool :=
+  forallb (fun g => match lookup_field d (fd_tag g) with Some _ => true | None => false end) r.
+Definition schema_covers (S R : schema) : bool :=
+  forallb (fun nr => match lookup_msg S (fst nr) with Some d => msg_covers d (snd nr) | None => false end) R.
 Definition schema_eqb (A B : schema) : bool :=
   (N.of_nat (List.length A) =? N.of_nat (List.length B))
   && forallb (fun nd => match lookup_msg B (fst nd) with
